@@ -332,4 +332,17 @@ theorem init_between (σ C : Nat) : Between (init σ C) [] := ⟨rfl, rfl, Or.in
 /-- non-vacuity: 5 samples, physical size 2 → chunks of 2, 2, 1 (numpy.array_split) with signals 1 1 0 -/
 example : (splitBatch [10, 11, 12, 13, 14] 2) = [([10, 11], true), ([12, 13], true), ([14], false)] := by decide
 
+/-- **zero_grad is idempotent**: clearing twice between two steps (a loop that clears at the bottom and again at the top of
+every iteration) is clearing once – in particular a second `optimizer.zero_grad()` never drops what the physical batches of
+the current logical batch have accumulated -/
+theorem optZeroGrad_idempotent (c : Cfg) (s : St) :
+    (stepOp c (stepOp c s .optZeroGrad).1 .optZeroGrad).1 = (stepOp c s .optZeroGrad).1 := by
+  obtain ⟨gs, summed, pgrad, ls, q, sg, cl, hist, nx, lg⟩ := s
+  cases ls <;> cases pgrad <;> simp [stepOp, optZero]
+
+theorem modZeroGrad_idempotent (c : Cfg) (s : St) :
+    (stepOp c (stepOp c s .modZeroGrad).1 .modZeroGrad).1 = (stepOp c s .modZeroGrad).1 := by
+  obtain ⟨gs, summed, pgrad, ls, q, sg, cl, hist, nx, lg⟩ := s
+  cases pgrad <;> simp [stepOp]
+
 end Opacus.C10
